@@ -46,6 +46,14 @@ CLAIMED.update({
          "Generated histories over two inter-node flows needing correlation and a control flow of each ready-at-once kind: no callback before both nodes were seen, merged records carry every non-empty correlate field (exactly the supplied value) and are marked filled, ready-at-once kinds fire at their first deadline, uncorrelated flows are re-armed exactly MaxRetries times and then dropped without a callback. Sampled.",
          "trusted: model in harness/aggh; rule actions and correlate values are per-flow per-node constants", "DESIGN.md section 3 C07"),
 })
+CLAIMED.update({
+ "C10": ("model-based property testing with a harness-owned clock: exhaustive enumeration of histories (incl. every placement of 'timer fired', 'callback read the clock', 'callback took the lock') to depth 5/6 plus rapid random histories; invariants over the template table and the clock's timer table after every step",
+         "The collector's clock and timers are replaced by a harness clock (Go AfterFunc semantics) in which a fired timer's callback is queued, started and released explicitly, so the schedule space is enumerated rather than sampled: all histories to depth 5 (quick) / 6 (thorough) over {template, replacement, bad template, data, advance TTL-1/1/TTL, start/finish/run callback} and random histories to depth 60 over 2 ids x 2 domains. After every action: no template dropped before last refresh + TTL, none stored once its lifetime elapsed and its callback ran, stored expiry = last refresh + TTL, exactly one armed timer (or a pending/in-flight callback) per stored template, no armed timer for removed ones.",
+         "trusted: glue.HClock implements Go's documented timer semantics; verif hooks (injected clock, snapshot); at most one callback in flight at a time (the code between its two steps holds no lock)", "DESIGN.md section 3 C10"),
+ "C11": ("property-based testing: exhaustive single/double cut enumeration of short streams plus rapid-generated message sequences and segmentations fed through an in-memory connection; oracle = reference framing and parsing of the stream up to the first invalid message",
+         "Every single cut and every pair of cuts of eight short streams (valid, and with each kind of undecodable message), plus thousands (quick) to hundreds of thousands (thorough) of generated streams (messages up to ~65 KiB, an invalid message at any position, an incomplete tail) with dribbled, boundary-aligned, peek-window and random segmentations: the handler must deliver exactly the messages before the first undecodable one, each equal to the reference parse of its own bytes, close the connection, and leave a second connection unaffected.",
+         "trusted: harness/refipfix; verif hook VerifHandleTCPClient; an in-memory net.Conn returning exactly the generated segments stands for the socket", "DESIGN.md section 3 C11"),
+})
 HOOK_COMMITS = ["bde829d", "7b897fc", "836c091"]
 
 checks = []
